@@ -7,9 +7,9 @@ Streams = {1, 3}
 ServerSide = FALSE
 InitConn = 6
 InitIWS = 3
-Payloads = {0, 2, 5}
+Payloads = {0, 5}
 Incs = {1, 4}
-IWSs = {0, 2, 6}
+IWSs = {0, 6}
 HdrClasses = {0}
 MaxData = 2
 MaxWU = 1
